@@ -39,7 +39,8 @@ class Spec:
             o.update(max_targets=12, max_ops=28)
             t.update(max_ops=30)
         from hypothesis import strategies as st
-        return st.one_of(gen.histories(o), gen.histories(t))
+        # third family: chains with two or more checksummed levels (nested out-of-band settles)
+        return st.one_of(gen.histories(o), gen.histories(t), gen.histories(o), gen.histories(t), gen.nested_chains())
 
     def run_case(self, case, tier):
         return hist.HistoryRunner(case, self.checks, tag="c03").run()
